@@ -232,41 +232,46 @@ theorem C09_frame_type_cex :
         (toN0 (.list .n0 [.dict .plain [(['k'], .int 1)]]))).map (·.diffs) = .ok 0 :=
   frame_type_cex
 
-/-- **C09 (frame).**  No transform, every other option and flag record, both entry points; roots of the same
+/-- **C09 (frame).**  `transform` functions that do not look at containers (`LeafTransform`: identity on
+containers, scalars to scalars, `None` to a scalar or `None`; in particular no transform, `C09_frame_no_transform`),
+every other option and flag record, both entry points; roots of the same
 kind; below the roots every dictionary carries one tag `cd` and every list one tag `cl` (`tagsKids`).  Then the
 run on `(a, b)` and the run on the recursively converted trees `(toN0 a, toN0 b)` are related by `FrameRel`:
 the first returns `r` ⇒ the second returns `r` with the shown values converted; the first raises `e` ⇒ the
 second raises `e` too, **or** `e` is one of the two `isinstance` exceptions (`AttributeError`/`TypeError`) and
 the walked mode meets a plain container of the kind it checks (`TagErr`: `direct_compare` with plain lists,
 `compare` with plain dictionaries). -/
-theorem C09_frame (cfg : Cfg) (htr : cfg.tr = []) (cd cl : Cls) (a b : Val) (hr : RootPair a b)
+theorem C09_frame (cfg : Cfg) (hl : LeafTransform cfg) (cd cl : Cls) (a b : Val) (hr : RootPair a b)
     (ha : tagsKids cd cl a = true) (hb : tagsKids cd cl b = true) :
     FrameRel (TagErr cfg cd cl) (compareTop cfg a b) (compareTop cfg (toN0 a) (toN0 b)) :=
-  frame_compareTop cfg htr cd cl a b hr ha hb
+  frame_compareTop cfg hl cd cl a b hr ha hb
 
 /-- when `TagErr` is excluded the run IS the run on the converted trees (exception class included) … -/
-theorem C09_frame_exact (cfg : Cfg) (htr : cfg.tr = []) (cd cl : Cls) (hT : ¬ TagErr cfg cd cl) (a b : Val)
+theorem C09_frame_exact (cfg : Cfg) (hl : LeafTransform cfg) (cd cl : Cls) (hT : ¬ TagErr cfg cd cl) (a b : Val)
     (hr : RootPair a b) (ha : tagsKids cd cl a = true) (hb : tagsKids cd cl b = true) :
     compareTop cfg (toN0 a) (toN0 b) = (compareTop cfg a b).map (Res.mapV toN0) :=
-  frame_exact cfg htr cd cl hT a b hr ha hb
+  frame_exact cfg hl cd cl hT a b hr ha hb
 
 /-- … in particular for `compare()` on trees as `n0dict(json_text)` builds them — `n0dict`s everywhere, plain
 lists: the theorems stated for recursively converted trees (`isN0`, C07) describe these runs too … -/
-theorem C09_frame_loaded (cfg : Cfg) (htr : cfg.tr = []) (hd : cfg.direct = false) (a b : Val)
+theorem C09_frame_loaded (cfg : Cfg) (hl : LeafTransform cfg) (hd : cfg.direct = false) (a b : Val)
     (hr : RootPair a b) (ha : tagsKids .n0 .plain a = true) (hb : tagsKids .n0 .plain b = true) :
     compareTop cfg (toN0 a) (toN0 b) = (compareTop cfg a b).map (Res.mapV toN0) :=
-  frame_keyed_loaded cfg htr hd a b hr ha hb
+  frame_keyed_loaded cfg hl hd a b hr ha hb
 
 /-- … and for `direct_compare` on trees with `n0list`s and plain dictionaries. -/
-theorem C09_frame_direct (cfg : Cfg) (htr : cfg.tr = []) (hd : cfg.direct = true) (a b : Val)
+theorem C09_frame_direct (cfg : Cfg) (hl : LeafTransform cfg) (hd : cfg.direct = true) (a b : Val)
     (hr : RootPair a b) (ha : tagsKids .plain .n0 a = true) (hb : tagsKids .plain .n0 b = true) :
     compareTop cfg (toN0 a) (toN0 b) = (compareTop cfg a b).map (Res.mapV toN0) :=
-  frame_direct_plainDicts cfg htr hd a b hr ha hb
+  frame_direct_plainDicts cfg hl hd a b hr ha hb
 
-theorem C09_frame_verdict (cfg : Cfg) (htr : cfg.tr = []) (cd cl : Cls) (hT : ¬ TagErr cfg cd cl) (a b : Val)
+theorem C09_frame_verdict (cfg : Cfg) (hl : LeafTransform cfg) (cd cl : Cls) (hT : ¬ TagErr cfg cd cl) (a b : Val)
     (hr : RootPair a b) (ha : tagsKids cd cl a = true) (hb : tagsKids cd cl b = true) :
     verdict (compareTop cfg (toN0 a) (toN0 b)) = verdict (compareTop cfg a b) :=
-  frame_verdict cfg htr cd cl hT a b hr ha hb
+  frame_verdict cfg hl cd cl hT a b hr ha hb
+
+/-- the hypothesis on `transform` holds when there is none -/
+theorem C09_frame_no_transform (cfg : Cfg) (h : cfg.tr = []) : LeafTransform cfg := leafTransform_nil h
 
 /-- non-vacuity: `{'r': [1, {'k': [2]}]}` against `{'r': [{'k': [3]}, 1]}` with plain lists and `n0dict`s -/
 example : tagsKids .n0 .plain frLoadedA = true ∧ tagsKids .n0 .plain frLoadedB = true ∧
